@@ -248,7 +248,7 @@ def run(pid, tier, seed):
     _LINES.extend(results[True][1])
     tasks = []
     for idx, ln in enumerate(_LINES):
-        nparts = len(ln) // 120000 + 1
+        nparts = min(16, len(ln) // 120000 + 1)       # every part decodes the whole line: keep the parts few
         tasks.extend((kind, idx, part, nparts) for part in range(nparts))
     tot = {'n': 0, 'nontrivial': 0, 'ndivergent': 0, 'accepted': 0}
     divergent, model_bad, devs, samples = [], [], {}, []
